@@ -242,6 +242,16 @@ EMPTY_STEP_DESCRIPTION = dict(_case(
     _p([_s("s0", [_t("t0", [], [{"a": "step", "d": ""}, _LOG, {"a": "step", "d": "next"}, _LOG]),
                   _t("t1", [], [_LOG], rank=2)])]),
     _cfg(1)))
+# the deprecated `with lcc.detached_step(d): pass` followed by records WITHOUT another set_step — in the test, in an lcc.Thread,
+# in a suite hook — then an ordinary step (minimised shape of seeded C07-11: the block "closed" its step, the next log was fired
+# outside any step, ReportWriter asserted, every backend got a truncated stream)
+DETACHED_STEP_THEN_LOG = dict(_case(
+    _p([_s("s0", [_t("t0", [], [{"a": "detached", "d": "detached"}, _LOG]),
+                  _t("t1", [], [_LOG, {"a": "detached", "d": "d1"}, _LOG, {"a": "check", "ok": True},
+                                {"a": "thread", "script": [{"a": "detached", "d": "in thread"}, _LOG]},
+                                {"a": "detached", "d": "d2"}, {"a": "detached", "d": "d3"}, {"a": "attach"},
+                                {"a": "step", "d": "plain"}, _LOG], rank=2)])]),
+    _cfg(2)))
 EMPTY_STEP_IN_THREAD = dict(_case(
     _p([_s("s0", [_t("t0", [], [_LOG, {"a": "thread", "script": [{"a": "step", "d": ""}, _LOG]}, _LOG]),
                   _t("t1", [], [_LOG], rank=2)])]),
